@@ -2,7 +2,10 @@
 //! Usage: rfv <driver> --out <trace.ndjson> [--tier quick|thorough] [--seed N] [--shard i/m] [--scenarios file]
 mod calls;
 mod ctx;
+mod d_exact;
+mod d_num;
 mod d_plan;
+mod d_shape;
 mod ev;
 mod fpfield;
 mod mem;
@@ -93,6 +96,18 @@ fn main() {
     match driver.as_str() {
         "c04" => d_plan::run_c04(&mut ctx),
         "c05" => d_plan::run_c05(&mut ctx),
+        "c01" => {
+            d_num::run_accuracy(&mut ctx, false);
+            d_exact::run_exact(&mut ctx, false);
+        }
+        "c14" => d_exact::run_exact(&mut ctx, true),
+        "c02" => d_num::run_accuracy(&mut ctx, true),
+        "c06" => d_num::run_c06(&mut ctx),
+        "c07" => d_num::run_c07(&mut ctx),
+        "c08" => d_num::run_c08(&mut ctx),
+        "c15" => d_num::run_c15(&mut ctx),
+        "c09" => d_shape::run_c09(&mut ctx),
+        "c03" => d_shape::run_c03(&mut ctx),
         _ => {
             eprintln!("unknown driver {}", driver);
             std::process::exit(2);
